@@ -58,6 +58,7 @@ DRIVERS = {  # binary -> (sources in harness/, extra flags, link with the librar
     "drv_api": (["drv_api.cpp"], [], True),
     "drv_file": (["drv_file.cpp"], [], True),
     "drv_fault": (["drv_fault.cpp", "io_shim.c"], [], True),
+    "drv_damage": (["drv_damage.cpp"], [], True),
     "drv_misc": (["drv_misc.cpp"], [], True),
 }
 
@@ -113,7 +114,7 @@ def build(flavour="plain", drivers=("drv_api", "drv_file")):
     for d in drivers:
         exe = os.path.join(out, d)
         if not os.path.exists(exe):
-            r = sh([fl["cxx"]] + drvobjs[d] + libobjs + fl["ld"] + ["-ldl", "-lpthread", "-o", exe + ".tmp"], capture_output=True, text=True)
+            r = sh([fl["cxx"]] + drvobjs[d] + libobjs + fl["ld"] + ["-rdynamic", "-ldl", "-lpthread", "-o", exe + ".tmp"], capture_output=True, text=True)
             if r.returncode != 0:
                 log("LINK ERROR", r.stderr[:4000]); raise SystemExit(3)
             os.replace(exe + ".tmp", exe)
@@ -395,6 +396,61 @@ def check_file(prop, tier, deadline):
     return rep.finish()
 
 
+# ---------------------------------------------------------------------------------------------- C15
+def check_c15(tier, deadline):
+    rep = Report("C15", tier, "fault_enumeration")
+    bdir = build("plain", ("drv_fault",))
+    sc = scratch_dir("c15"); out = os.path.join(sc, "out.json")
+    cmd = [os.path.join(bdir, "drv_fault"), "--tier", tier, "--scratch", sc, "--out", out]
+    r = sh(cmd, capture_output=True, text=True, timeout=deadline)
+    if r.returncode != 0 or not os.path.exists(out):
+        log("driver failed", r.stdout[-1000:], r.stderr[-1000:]); raise SystemExit(3)
+    d = json.load(open(out)); shutil.rmtree(sc, ignore_errors=True)
+    for v in d["violations"]:
+        rep.add(v["sig"], v["detail"], {"engine": "fault", "tier": tier, "input": v["object"] + ":" + v["plan"]}, v["count"])
+    rep.coverage = {"evaluations": d["evaluations"], "distinct_nontrivial": d["runs_with_injected_fault"],
+                    "rule": "for each of 4 objects (blank; 1 point x 2 frames; points+channels+2-block parameter section; 14 KB file crossing the stream buffer) every single fault plan: "
+                            "open fails (ENOENT/EACCES/EROFS), device capacity C for every C in [0,size), k-th write call fails (EIO/EFBIG) for every k, close fails, every/k-th write short; "
+                            "thorough adds pairs (short writes x capacity / x k-th failure, close failure x capacity); non-trivial = runs in which a fault was actually injected",
+                    "samples": d["samples"], "objects": d["objects"], "outcomes": d["outcomes"], "exhaustive": True}
+    rep.assumptions = ["faults are injected at libc's fopen/fopen64/write/writev/fclose (link-time interposition under libstdc++'s basic_filebuf); kernel-level partial failures below write() are modelled by capacity/short-write plans"]
+    log(f"[fault] evaluations={d['evaluations']} outcomes={d['outcomes']}")
+    return rep.finish()
+
+
+# ---------------------------------------------------------------------------------------------- C16
+def check_c16(tier, deadline):
+    rep = Report("C16", tier, "fault_enumeration")
+    runs = []
+    plan = [("plain", "full", 0.4), ("asan", "boundary" if tier == "quick" else "full", 2.0)]
+    for flavour, profile, limit in plan:
+        bdir = build(flavour, ("drv_damage",))
+        sc = scratch_dir("c16" + flavour); out = os.path.join(sc, "out.json")
+        env = dict(os.environ)
+        if flavour == "asan":
+            env["ASAN_OPTIONS"] = "detect_leaks=0:allocator_may_return_null=0:max_allocation_size_mb=1024:abort_on_error=0"
+            env["UBSAN_OPTIONS"] = "print_stacktrace=1:halt_on_error=1"
+        cmd = [os.path.join(bdir, "drv_damage"), "--tier", tier, "--profile", profile, "--limit", str(limit), "--workers", str(WORKERS), "--deadline", str(deadline / 2), "--scratch", sc, "--out", out]
+        r = sh(cmd, env=env, capture_output=True, text=True)
+        if r.returncode != 0 or not os.path.exists(out):
+            log("driver failed", " ".join(cmd), r.stdout[-1000:], r.stderr[-1000:]); raise SystemExit(3)
+        d = json.load(open(out)); shutil.rmtree(sc, ignore_errors=True)
+        log(f"[damage] {flavour}/{profile}: cases={d['cases']} done={d['done']} outcomes={d['outcomes']} {d['wall_s']}s")
+        for v in d["violations"]:
+            rep.add(v["sig"], f"damaged file makes the loader end in '{v['sig'].split('/')[0]}' ({flavour} build)", {"engine": "damage", "tier": tier, "flavour": flavour, "input": v["case"]}, v["count"])
+        runs.append(d)
+    rep.coverage = {"evaluations": sum(d["done"] for d in runs), "distinct_nontrivial": sum(d["done"] for d in runs),
+                    "rule": "5 small valid base files (blank, points only, points+analogs+events, multi-dimensional parameters, leading zeros) from the independent encoder; damage = every truncation length; "
+                            "every byte of header + parameter section + first data block x {0,1,0x7F,0x80,0xFF}; every structural byte (name lengths, ids, next-offsets, types, dimension counts, dimensions, "
+                            "description lengths, prologue, header counts/range/data start) x all 256 values; pairs of structural bytes x boundary values (2 bases quick, all thorough); each damaged file loaded in a forked "
+                            "child (plain build: address-space cap + watchdog, timeouts re-run alone with a 10x limit; ASan build: sanitizer reports); every case is a distinct damaged input",
+                    "exhaustive": all(d["done"] >= d["cases"] for d in runs),
+                    "runs": [{k: d[k] for k in ("flavour", "profile", "cases", "single_damage_cases", "pair_cases", "done", "outcomes", "wall_s", "limit_s", "bases")} for d in runs],
+                    "samples": runs[0]["samples"]}
+    rep.assumptions = ["an allocation request that fails at once even under an 8 GiB cap (std::length_error / std::bad_alloc from an absurd count) is a clean refusal; growth that only the small cap stops is reported as memory_not_proportional"]
+    return rep.finish()
+
+
 # ---------------------------------------------------------------------------------------------- C13
 C13_RUNS = [("mut", "C13", 4, 6), ("frames", "C13", 4, 6), ("c07", "C13", 4, 6), ("params", "C13", 2, 3), ("lookup", "C13,C11", 4, 6), ("build", "C13,C01,C03", 3, 4)]
 
@@ -532,6 +588,22 @@ def do_replay(path):
         rc = sh(cmd).returncode
         shutil.rmtree(sc, ignore_errors=True)
         return rc
+    if r.get("engine") == "damage":
+        bdir = build(r.get("flavour", "plain"), ("drv_damage",))
+        sc = scratch_dir("replay")
+        cmd = [os.path.join(bdir, "drv_damage"), "--tier", r.get("tier", "quick"), "--case", r["input"], "--scratch", sc]
+        print("replaying:", " ".join(cmd)); print("expected signature:", r.get("signature"))
+        rc = sh(cmd).returncode
+        shutil.rmtree(sc, ignore_errors=True)
+        return rc
+    if r.get("engine") == "fault":
+        bdir = build("plain", ("drv_fault",))
+        sc = scratch_dir("replay")
+        cmd = [os.path.join(bdir, "drv_fault"), "--tier", r.get("tier", "quick"), "--plan", r["input"], "--scratch", sc]
+        print("replaying:", " ".join(cmd)); print("expected signature:", r.get("signature"))
+        rc = sh(cmd).returncode
+        shutil.rmtree(sc, ignore_errors=True)
+        return rc
     print("unknown replay engine", r.get("engine"))
     return 2
 
@@ -558,6 +630,10 @@ def main():
             return check_file(a.prop, tier, deadline)
         if a.prop == "C14":
             return check_c14(tier, deadline)
+        if a.prop == "C15":
+            return check_c15(tier, deadline)
+        if a.prop == "C16":
+            return check_c16(tier, deadline)
         if a.prop == "C13":
             return check_c13(tier, deadline)
         print("no check for", a.prop)
